@@ -7,7 +7,7 @@ RULE = ("objects built by random setter histories (any interleaving of group-les
         "overwritten keys; typed values) or parsed from conventional files (general ones, and dense ones where value-less keys stand directly below other entries) and then modified, for delimiter tags =, :, space "
         "and comment tags #, ;; each is written with econf_writeFile (in half of the cases over a longer file saved earlier under the same name) and read back with its own tags; for objects the Coq "
         "predicate `writable` accepts (decided by the extracted model), every section must hold the same keys in order with "
-        "the same values, and single-line entries keep their comments; non-writable objects only check model = implementation; "
+        "the same values, and single-line entries keep their comments; values whose first or continuation line (indentation included) is 4094..4097, 8189..8200, 16383..16385, 20000, 65536, 70001 bytes long, on every delimiter/comment pair, with a key behind them; non-writable objects only check model = implementation; "
         "distinct by written bytes")
 
 def sections_of(getall):
@@ -54,6 +54,20 @@ def gen(rng, tier):
                 cmds.append("set 0 string %s %s %s 0" % (vlib.enc(rng.choice([None, b"A", b"new"])), vlib.enc(b"added"),
                                                           vlib.enc(writable.sval(rng, d, c))))
         pre.append(cmds)
+    # values whose lines are long: a first line or a continuation line (indentation included) of a length around the sizes
+    # stack buffers like (BUFSIZ = 8192 and its neighbours), on every delimiter and comment character; a key behind it
+    Ls = [4094, 4095, 4096, 4097, 8189, 8190, 8191, 8192, 8193, 8200, 16383, 16384, 16385, 20000, 65536, 70001]
+    for i in range(2 * 3 * len(Ls) if tier == "quick" else 1200):
+        d = (61, 58, 32)[(i // 7) % 3]; c = (35, 59)[(i // 5) % 2]
+        L = Ls[(i // 3) % len(Ls)] if i < 6 * len(Ls) or rng.random() < 0.5 else rng.randrange(100, 40000)
+        ind = rng.choice([b" ", b"\t", b"    "])
+        body = lambda n: bytes(rng.choice(b"abcxyz0189_-.") for _ in range(max(n, 1)))
+        shape = i % 3
+        if shape == 0: v = b"first\n" + ind + body(L - len(ind))                      # one long continuation line
+        elif shape == 1: v = body(L) + b"\n" + ind + b"second"                          # a long first line, continued
+        else: v = b"a\n" + ind + body(L - len(ind)) + b"\n" + ind + body(L + 1 - len(ind)) + b"\n" + ind + b"end"
+        pre.append(["newkf 0 %d %d" % (d, c), "set 0 string %s %s %s 0" % (vlib.enc(rng.choice([None, b"A"])), vlib.enc(b"longval"), vlib.enc(v)),
+                    "set 0 string %s %s %s 0" % (vlib.enc(b"A"), vlib.enc(b"after"), vlib.enc(b"short"))])
     # which objects are writable: decided by the Coq predicate
     verdicts = vlib.run_model([c + ["wspec 0"] for c in pre])
     out = []
